@@ -518,7 +518,7 @@ func main() {
 	})
 
 	// multi-polygons mixing polygons that cross the box with polygons wholly inside it (with holes)
-	r.Explore("multipolygon-inside-members", "multi-polygons of 1..2 polygons crossing the general-position box and a polygon wholly inside it with 0..2 holes, every order of the members, both orientations: region, and the inside polygon keeps exactly its own holes", mc.Opts{MaxDev: -1}, func(c *mc.Ctx) {
+	r.Explore("multipolygon-inside-members", "multi-polygons of 1..2 polygons crossing the general-position box (one optionally with a hole far outside the box), a polygon wholly inside it with 0..2 holes and optionally a polygon far from the box, every order of the members, both orientations: region, and the inside polygon keeps exactly its own holes", mc.Opts{MaxDev: -1}, func(c *mc.Ctx) {
 		o := orb.CCW
 		if c.Bool() {
 			o = orb.CW
@@ -543,13 +543,24 @@ func main() {
 				holesIn = append(holesIn, h)
 			}
 		}
-		members := []orb.Polygon{{wind(crossA, o == orb.CCW)}, in}
+		// members and holes far from the box (bounding boxes disjoint from it): they contribute nothing, wherever they
+		// stand in the list - in particular first among the polygons, or first among all the holes
+		far := orb.Ring{{6, 6}, {7, 6}, {7, 7}, {6, 7}, {6, 6}}
+		farHole := orb.Ring{{3.2, 3.2}, {3.6, 3.2}, {3.6, 3.6}, {3.2, 3.6}, {3.2, 3.2}}
+		a := orb.Polygon{wind(crossA, o == orb.CCW)}
+		if c.Bool() {
+			a = append(a, wind(farHole, o != orb.CCW))
+		}
+		members := []orb.Polygon{a, in}
 		two := c.Bool()
 		if two {
 			members = append(members, orb.Polygon{wind(crossB, o == orb.CCW)})
 		}
+		if c.Bool() {
+			members = append(members, orb.Polygon{wind(far, o == orb.CCW)})
+		}
 		// every order of the members
-		idx := []int{0, 1, 2}[:len(members)]
+		idx := []int{0, 1, 2, 3}[:len(members)]
 		var mp orb.MultiPolygon
 		for len(idx) > 0 {
 			k := c.Choose(len(idx))
